@@ -209,6 +209,16 @@ pub fn run(ctx: &Ctx) -> Value {
             }
         }
     }
+    // digit-pair witnesses, and a sequence in which consecutive values share a component (one-entry memos inside the writer)
+    for (i, v) in crate::proj::pair_witnesses().iter().enumerate() {
+        let off = lattice[i % lattice.len()];
+        if let Some(dt) = super::c09::mk(|| FixedOffset::east_opt(off).and_then(|o| o.from_local_datetime(v).single())) { nw += write_events(&mut tw, &dt, "fixed", i % 4 == 0); }
+        if i % 2 == 0 { if let Ok(dt) = guard(|| v.and_utc()) { nw += write_events(&mut tw, &dt, "utc", false); } }
+    }
+    for (i, d) in crate::proj::memo_sequence().into_iter().enumerate() {
+        let v = d.and_time(times[i % 2]);
+        if let Ok(dt) = guard(|| v.and_utc()) { nw += write_events(&mut tw, &dt, "utc", i % 3 == 0); }
+    }
     for _ in 0..ctx.t(300, 20_000) {       // random wall clocks
         let d = super::c09::mk(|| NaiveDate::from_ymd_opt(rng.range(0, 9999) as i32, rng.range(1, 12) as u32, rng.range(1, 28) as u32));
         let secs = rng.range(0, 86_399) as u32;
